@@ -317,6 +317,9 @@ Inductive obs :=
 | BUnit
 | BQueued (l : list Z)      (* timers whose expiry reached the queue during this Settle *)
 | BRan (l : list cbrec)     (* callbacks that ran during this op *)
+| BRanCut (l : list cbrec)  (* the same for a released loop that the driver parked again BEFORE it had
+                               reached the end of its queue (expiries kept arriving as fast as the
+                               loop was released; the driver gives up after a number of rounds) *)
 | BWait (q : list Z) (l : list cbrec). (* timers whose expiry reached the channel; callbacks that ran
                                           although nobody was released to run them (none, in the model) *)
 
@@ -396,12 +399,16 @@ Definition rest_steps (s : st) : list step_t :=
   | _ => []
   end.
 
-Definition loop_steps (s : st) (l : list Z) : list step_t :=
+(* [cut]: the loop was parked again before it got to the end of its queue - what is left stays queued *)
+Definition loop_steps (s : st) (l : list Z) (cut : bool) : list step_t :=
   let xs := follow s l in
   let s1 := fst (run_from s xs) in
-  xs ++ rest_steps s1 ++ [SLoopEnd].
+  xs ++ (if cut then [] else rest_steps s1) ++ [SLoopEnd].
 
-Definition compile (s : st) (o : op) (l : list Z) : list step_t :=
+(* the schedule of a released loop: the timers whose callbacks ran, in order; cut short or not *)
+Definition sched := (list Z * bool)%type.
+
+Definition compile (s : st) (o : op) (h : sched) : list step_t :=
   match o with
   | OCreate d rep a p => [SCreate d rep a p]
   | OCreateN n d rep a => repeat (SCreate d rep a []) (Z.to_nat n)
@@ -413,8 +420,8 @@ Definition compile (s : st) (o : op) (l : list Z) : list step_t :=
   | ODoAll => flat_map (do_steps s) (zsort (queue s))
   | OSvc => []
   | OWait g => wait_steps s g
-  | OStart => SStart :: loop_steps (fst (step s SStart)) l
-  | ORun => loop_steps s l
+  | OStart => SStart :: loop_steps (fst (step s SStart)) (fst h) (snd h)
+  | ORun => loop_steps s (fst h) (snd h)
   | OStopSvc _ => wait_steps s 0 ++ match life_of s with LUp => [SStop; SClose] | _ => [] end
   | OCreateNs ns rep a p => [SCreate ns rep a p]
   end.
@@ -441,20 +448,21 @@ Fixpoint queued_of (e : list ev) : list Z :=
   | _ :: r => queued_of r
   end.
 
-Definition obs_of (o : op) (tr e : list ev) : obs :=
+Definition obs_of (o : op) (h : sched) (tr e : list ev) : obs :=
   match o with
   | OCreate _ _ _ _ | OCreateN _ _ _ _ | OStall _ | OCancel _ | OSvc | OCreateNs _ _ _ _ => BUnit
   | OStop | OSettle _ => BQueued (queued_of e)
-  | ODo _ | ODoAll | OStart | ORun => BRan (cbrecs tr e)
+  | ODo _ | ODoAll => BRan (cbrecs tr e)
+  | OStart | ORun => if snd h then BRanCut (cbrecs tr e) else BRan (cbrecs tr e)
   | OWait _ | OStopSvc _ => BWait (queued_of e) (cbrecs tr e)
   end.
 
 Definition rec_key (r : cbrec) : Z := match r with CbRec k _ _ _ _ _ => k end.
 
 (* the schedule of a released loop, read off the implementation's observation of that op *)
-Definition hint_of (b : obs) : list Z :=
-  match b with BRan l => map rec_key l | _ => [] end.
-Definition hint (bs : list obs) : list Z := match bs with b :: _ => hint_of b | [] => [] end.
+Definition hint_of (b : obs) : sched :=
+  match b with BRan l => (map rec_key l, false) | BRanCut l => (map rec_key l, true) | _ => ([], false) end.
+Definition hint (bs : list obs) : sched := match bs with b :: _ => hint_of b | [] => ([], false) end.
 
 (* all steps executed by an op list (each op compiled in the state it starts in); [bs]: the
    observations the schedules are taken from, one per op (missing ones: no schedule) *)
@@ -477,7 +485,7 @@ Fixpoint exec_from (s : st) (tr : list ev) (ops : list op) (bs : list obs) : lis
   | [] => []
   | o :: r =>
       let '(s1, e) := run_from s (compile s o (hint bs)) in
-      obs_of o tr e :: exec_from s1 (tr ++ e) r (tl bs)
+      obs_of o (hint bs) tr e :: exec_from s1 (tr ++ e) r (tl bs)
   end.
 
 (* a bare manager whose owner goroutine exists from the beginning *)
